@@ -14,8 +14,11 @@ Ents == {"3", "3.1", "4"}                   \* dynamic entities (the static part
 FTypes == {"Measurement", "ElectricalConnection"}
 Roles == {"client", "server"}
 FnOf == [Measurement |-> {"meas", "measdesc"}, ElectricalConnection |-> {"ecdesc"}]
-Subscribers == {"p1"}                       \* p1 is subscribed to node management, p2 is not
-Peers == {"p1", "p2"}
+Subscribers == {"p1", "q1", "q2"}           \* p1 is subscribed to node management, p2 is not; q1 and q2 subscribed right after
+                                            \* their connection was set up and never sent a discovery reply (the stack does not
+                                            \* know their device address): subscribers like p1
+Peers == {"p1", "p2", "q1", "q2"}
+Readers == {"p1", "p2"}
 
 InitT == [ ents  |-> [e \in Ents |-> "none"],       \* none | created | added | removed
            feats |-> {},                           \* [e, no, type, role, fns]   fns: set of [fn, r, w]
@@ -85,6 +88,6 @@ Inputs(st) ==
     \cup On("setdesc", {[a |-> "setdesc", e |-> f.e, no |-> f.no] : f \in {x \in st.feats : st.ents[x.e] \in {"created", "added"} /\ x.desc = 1}})
     \cup On("addent", {[a |-> "addent", e |-> e] : e \in {x \in Ents : st.ents[x] = "created"}})
     \cup On("rement", {[a |-> "rement", e |-> e] : e \in {x \in Ents : st.ents[x] = "added"}})
-    \cup On("read", {[a |-> "read", p |-> p] : p \in Peers})
+    \cup On("read", {[a |-> "read", p |-> p] : p \in Readers})
 
 =============================================================================
